@@ -59,7 +59,7 @@ impl SpaceOpts {
 }
 
 pub fn corpus() -> Vec<String> {
-    let path = std::path::PathBuf::from(crate::common::VERIF_DIR).join("corpus.txt");
+    let path = crate::common::verif_dir().join("corpus.txt");
     match std::fs::read_to_string(path) {
         Ok(t) => t.lines().filter(|l| !l.starts_with("#!")).map(|l| l.to_string()).collect(),
         Err(_) => vec![],
